@@ -75,10 +75,18 @@ pub(crate) fn pad_upsampling(
         .unwrap_or(color_upsample_factor);
 
     if max_upsample_factor > 0 {
-        // Additional upsampling pass is needed for every 3 levels of upsampling factor.
+        // Additional upsampling pass is needed for every 3 levels of upsampling factor. With
+        // patches, extra channels are upsampled to the color resolution first, then to the full
+        // resolution along with color channels.
+        let passes = if frame_header.flags.patches() {
+            (max_upsample_factor - color_upsample_factor).div_ceil(3)
+                + color_upsample_factor.div_ceil(3)
+        } else {
+            max_upsample_factor.div_ceil(3)
+        };
         frame_region
             .downsample(max_upsample_factor)
-            .pad(2 + (max_upsample_factor - 1) / 3)
+            .pad(1 + passes)
             .upsample(max_upsample_factor)
     } else {
         frame_region
